@@ -30,7 +30,9 @@ pub const SATURATION: f64 = 40.0;
 /// alpha = 0 takes part in the monotonicity and prediction clauses only
 pub const ALPHAS: [f64; 4] = [1.0, 1e-2, 10.0, 0.0];
 /// the "ugly" label table: negative, non-contiguous, non-integer, not monotone in the letter
-pub const UGLY: [f64; 4] = [-3.0, 7.0, 10.0, 8.5];
+/// (round 6: non-dyadic values of mixed sign and magnitude, for which a + (b - a) != b in
+/// floating point — a label must come back bit for bit, not recomputed)
+pub const UGLY: [f64; 4] = [-0.7, 0.35, 36.6, -273.15];
 
 pub const STATIONARITY: f64 = 1e-3;
 const MONO_RTOL: f64 = 1e-12;
@@ -281,7 +283,7 @@ pub fn bounds(t: bool, seed: u64) -> Value {
         "x_alphabet": "p=1: {0,1,-1,2} (first x_letters of it); p=2: the 2x2 lattice {0,1}^2; raw values shifted by (seed%8)/4, then mapped by a*x+b",
         "maps": MAPS.iter().map(|m| format!("{:?}", m)).collect::<Vec<_>>(),
         "seed_shift": (seed % 8) as f64 * 0.25,
-        "label_tables": "plain: letter c -> c; ugly: letter c -> {-3, 7, 10, 8.5}[c]",
+        "label_tables": "plain: letter c -> c; ugly: letter c -> {-0.7, 0.35, 36.6, -273.15}[c] (non-dyadic, mixed sign)",
         "blocks": bl,
         "structured": format!("n in {:?} x p in 1..6 x k in 2..4 x layouts {:?} x 4 maps (the first 4) x 4 alphas x 2 label tables", STRUCT_N, LAYOUTS),
         "saturated_scores_family(round 2)": {
